@@ -23,6 +23,7 @@ import (
 	"context"
 	"database/sql"
 	"errors"
+	"strings"
 
 	"github.com/golang/protobuf/ptypes/empty"
 	"github.com/google/uuid"
@@ -85,8 +86,9 @@ func (s *subscriberServer) ListSnapshots(
 
 	var resp *pubsubpb.ListSnapshotsResponse
 	err := s.client.DoTx(ctx, nil, func(tx *ent.Tx) error {
+		prefix := projectSnapshotPrefix(req.Project)
 		predicates := []predicate.Snapshot{
-			snapshot.NameHasPrefix(projectSnapshotPrefix(req.Project)),
+			snapshot.NameHasPrefix(prefix),
 		}
 		if req.PageToken != "" {
 			pageID, err := uuid.Parse(req.PageToken)
@@ -105,9 +107,13 @@ func (s *subscriberServer) ListSnapshots(
 		if err != nil {
 			return grpc.AsStatusError(err)
 		}
-		grpcSnapshots := make([]*pubsubpb.Snapshot, len(snaps))
-		for i, snap := range snaps {
-			grpcSnapshots[i] = entSnapshotToGrpc(snap, "")
+		grpcSnapshots := make([]*pubsubpb.Snapshot, 0, len(snaps))
+		for _, snap := range snaps {
+			// the SQL prefix match is case-insensitive on some backends (SQLite's
+			// LIKE), the project has to match exactly
+			if strings.HasPrefix(snap.Name, prefix) {
+				grpcSnapshots = append(grpcSnapshots, entSnapshotToGrpc(snap, ""))
+			}
 		}
 		var nextPageToken string
 		if len(snaps) >= int(pageSize) {
